@@ -1,5 +1,7 @@
 import DEvo.Run.History
+import DEvo.Run.Monitors
 import DEvo.Generated.Tables
+import DEvo.Generated.Skeletons
 
 /-! # C08 — each evolution is applied and recorded exactly once -/
 
@@ -202,5 +204,44 @@ theorem C08_cex_mark_then_install :
 task class, unconditionally, into the one list it hands to `_save_project_sig` — what `stepH (.run apps true)`
 records.  Read from the source on every run (Generated/Tables.lean). -/
 theorem C08_source_collects_all : DEvo.Generated.collectsAllNewEvolutions = true := by decide
+
+/-! ## a task executes only the SQL of the batch it is in (over the generated skeleton) -/
+
+structure Guard where
+  armed : Bool
+  bad : Bool
+  deriving DecidableEq, Repr, Inhabited
+
+/-- `armed`: in this iteration of the loop over the batch's tasks, `task_sql` (the SQL that
+`_build_batches` stored for this task IN THIS BATCH) was tested and found non-empty; `bad`:
+`task.execute` was called otherwise (it would then fall back to the SQL of ALL the task's pending
+evolutions) -/
+def guardStep (st : Guard) (ev : DEvo.Skel.Event) : Guard :=
+  match ev with
+  | .iter c => if c == "six.iteritems(task_evolutions)" then { st with armed := false } else st
+  | .branch c b => if c == "task_sql" then { st with armed := b } else st
+  | .call n => if n == "task.execute" then { st with bad := st.bad || !st.armed } else st
+  | _ => st
+
+set_option maxRecDepth 16384 in
+/-- **on every path through `execute_tasks` — any number of batches and tasks, an exception in any
+call — `task.execute` runs only for a task that has SQL in the current batch**: an evolution whose
+SQL belongs to another batch is not executed a second time here.  Re-checked on the regenerated
+skeleton on every run. -/
+theorem C08_task_runs_only_batch_sql :
+    ∀ tr o, DEvo.Skel.Exec DEvo.Generated.taskExecuteTasks tr o →
+      (DEvo.Skel.Mon.run ⟨guardStep⟩ ⟨false, false⟩ tr).bad = false := by
+  intro tr o hex
+  have := DEvo.Skel.reach_all ⟨guardStep⟩ 8 DEvo.Generated.taskExecuteTasks ⟨false, false⟩
+    (fun _ st => !st.bad) (by decide) tr o hex
+  simpa using this
+
+/-- the monitor is not vacuous: a call without the test is flagged, a call after it is not -/
+example :
+    (DEvo.Skel.Mon.run ⟨guardStep⟩ ⟨false, false⟩
+      [.iter "six.iteritems(task_evolutions)", .call "task_info.get", .call "task.execute"]).bad = true ∧
+    (DEvo.Skel.Mon.run ⟨guardStep⟩ ⟨false, false⟩
+      [.iter "six.iteritems(task_evolutions)", .call "task_info.get", .branch "task_sql" true,
+       .call "task.execute"]).bad = false := by decide
 
 end DEvo.Props.C08
